@@ -13,9 +13,21 @@ fail() { echo "build: $*" >&2; exit 2; }
 H=$( (cd "$REPO" && for f in $(ls *.go | grep -v _test.go) go.mod; do echo "$f"; cat "$f"; done; cd $V/sim && find . -name '*.go' -o -name go.mod | sort | xargs cat; cat $V/tools/cmd/rewrite/main.go) | sha256sum | cut -c1-20)
 OUT=$V/.cache/bin/$H
 need_plain=0; need_race=0
-case "$what" in plain) need_plain=1;; race) need_race=1;; both) need_plain=1; need_race=1;; esac
+need_real=0
+case "$what" in plain) need_plain=1;; race) need_race=1;; both) need_plain=1; need_race=1;; real) need_real=1;; esac
+[ $need_real = 1 ] && [ -x $OUT/mosssim-real ] && need_real=0
 [ $need_plain = 1 ] && [ -x $OUT/mosssim ] && need_plain=0
 [ $need_race = 1 ] && [ -x $OUT/mosssim-race ] && need_race=0
+if [ $need_real = 1 ]; then
+  # differential build: harness linked against the UNREWRITTEN tree (real goroutines)
+  S=/dev/shm/verif-build-real-$H-$$
+  rm -rf $S; mkdir -p $S/moss $OUT || fail "mkdir"
+  (cd "$REPO" && for f in *.go go.mod go.sum; do case $f in *_test.go) ;; *) cp $f $S/moss/ ;; esac; done) || fail "copy"
+  sed "s#=> /dev/shm/verif-dev/moss#=> $S/moss#" $V/sim/go.mod > $S/go.mod
+  cp $V/sim/go.sum $S/go.sum
+  (cd $V/sim && go build -modfile=$S/go.mod -o $OUT/mosssim-real ./cmd/mosssim) >&2 || { rm -rf $S; fail "go build (real) failed"; }
+  rm -rf $S
+fi
 if [ $need_plain = 1 ] || [ $need_race = 1 ]; then
   S=/dev/shm/verif-build-$H-$$
   rm -rf $S; mkdir -p $S/moss $OUT || fail "mkdir"
